@@ -235,12 +235,18 @@ def check_position(case):
 
 @st.composite
 def run_cases(draw):
+    noisy = draw(st.booleans())
+    if noisy:
+        # one parameter, several generations: many particles end up on the same bound, measured separately
+        return {"alg": draw(st.sampled_from(ALGS)), "n": 1, "m": draw(st.sampled_from([2, 2, 3])),
+                "N": draw(st.sampled_from([3, 4, 5, 8])), "G": draw(st.integers(3, 8)),
+                "seed": draw(st.integers(0, 2 ** 31)), "noisy": True}
     return {"alg": draw(st.sampled_from(ALGS)), "n": draw(st.integers(1, 3)), "m": draw(st.sampled_from([1, 2, 2, 3])),
             "N": draw(st.sampled_from([2, 2, 3, 3, 4, 5, 8])), "G": draw(st.integers(1, 5)),
             "seed": draw(st.integers(0, 2 ** 31)),
             # a measured (noisy) objective: the same design evaluated twice gets different costs - particles that are
             # reset onto the same corner of the box then enter the leader archive with equal vectors, different costs
-            "noisy": draw(st.booleans())}
+            "noisy": False}
 
 
 def robust_dominates(p, q):
@@ -306,7 +312,60 @@ def check_run(case):
     return {"nt": truncs[0] > 0, "classes": [case["alg"], "truncated" if truncs[0] else "never-truncated"]}
 
 
+# ---------------------------------------------------------------- leader archive driven directly (histories of swarms)
+
+@st.composite
+def leader_histories(draw):
+    m = draw(st.sampled_from([2, 2, 3]))
+    N = draw(st.integers(2, 6))
+    swarms = []
+    for _ in range(draw(st.integers(1, 5))):
+        sw = []
+        for _ in range(N):
+            # positions from a handful of places (particles pile up on the bounds); costs measured separately, so the
+            # same position can carry different costs
+            sw.append({"x": [draw(st.sampled_from([0.0, 1.0, 0.5, 0.25]))],
+                       "c": [draw(st.integers(0, 6)) / 2.0 for _ in range(m)]})
+        swarms.append(sw)
+    return {"alg": draw(st.sampled_from(ALGS)), "N": N, "m": m, "swarms": swarms}
+
+
+def check_leader_history(case):
+    from artap.algorithm_swarm import IndividualSwarm
+    prob = None
+    try:
+        with guard("global-best"):
+            prob, alg = _alg(case["alg"], [[0.0, 1.0]], m=case["m"])
+            alg.options["max_population_size"] = case["N"]
+        for k, sw in enumerate(case["swarms"]):
+            with guard("global-best"):
+                parts = []
+                for p in sw:
+                    ind = IndividualSwarm(list(p["x"]))
+                    ind.costs_signed = list(p["c"]) + [True]
+                    ind.costs = list(p["c"])
+                    parts.append(ind)
+                alg.update_global_best(parts)
+                leaders = [(list(o.vector), list(o.costs_signed)) for o in alg.leaders]
+            # (the archive is truncated by crowding distance, so a leader may well be dominated by an earlier offer that
+            #  was dropped: only the size bound and mutual non-domination are claimed)
+            if len(leaders) > case["N"]:
+                raise Violation("global-best", "%s:too-many-leaders" % case["alg"], "%d leaders for N=%d after swarm %d" % (
+                    len(leaders), case["N"], k))
+            for a in leaders:
+                for b in leaders:
+                    if a is not b and O.verdict(a[1], b[1]) == 1:
+                        raise Violation("global-best", "%s:dominated-leader" % case["alg"], "%s: after swarm %d leader %r "
+                                        "(at %r) dominates leader %r (at %r)" % (case["alg"], k, a[1], a[0], b[1], b[0]))
+    finally:
+        if prob is not None:
+            dispose(prob)
+    same_place = any(len({tuple(p["x"]) for p in sw}) < len(sw) for sw in case["swarms"])
+    return {"nt": same_place and len(case["swarms"]) >= 2, "classes": [case["alg"], "swarms%d" % len(case["swarms"])]}
+
+
 CLAUSES = [
+    Clause("global-best", leader_histories(), check_leader_history, quick=1200, thorough=10000, quick_shards=2),
     Clause("personal-best", best_cases(), check_best, quick=1500, thorough=15000, quick_shards=2),
     Clause("velocity", velocity_cases(), check_velocity, quick=1500, thorough=15000, quick_shards=2),
     Clause("position", position_cases(), check_position, quick=1500, thorough=15000, quick_shards=2),
